@@ -730,7 +730,7 @@ Qed.
 
 Lemma bind_memory_K v slot image res off : KR v (fst (bind_memory v slot image res off)).
 Proof.
-  unfold bind_memory. destruct (res =? 0); [apply KR_refl|]. destruct (negb _); [apply KR_refl|].
+  unfold bind_memory. destruct (res =? 0); [apply KR_refl|]. destruct (negb _); [apply KR_refl|]. destruct (off <? 0); [apply KR_refl|].
   match goal with |- context [match ?t with OK _ => _ | ER _ => _ | PANIC => _ | STUCK => _ end] => destruct t as [o|code| |] end; try apply KR_refl.
   destruct (dev_bind _ _ _ _ _) as (m1 & code). apply KR_set_m.
 Qed.
